@@ -67,7 +67,7 @@ func tagOf(f eng.Field, src string) string {
 
 func streamFront(seed uint64, n int, driver string) (*Summary, error) {
 	sum := newSummary("front", seed)
-	sum.Rule = "random flat record schemas (1..5 fields of string/int/bool/time/[]string, Required/Default/tests, random json/form/query/env/zog tags, source tags with options after the name or without a name) and, one case in four, a nested struct field; one record rendered through 6 front ends (Go map, zjson, zhttp JSON, form, query, env — env values padded on either side with ASCII and non-ASCII Unicode white space), in half of the cases through ONE shared schema object with a rotating first front end; non-trivial = at least one tag differs from the schema key or a field is missing; distinct = distinct (schema, record)"
+	sum.Rule = "random flat record schemas (1..5 fields of string/int/bool/time/[]string — half of the list fields under form/query parameters named k[], with lists of one element and blank elements —, Required/Default/tests, random json/form/query/env/zog tags, source tags with options after the name or without a name) and, one case in four, a nested struct field; one record rendered through 6 front ends (Go map, zjson, zhttp JSON, form, query, env — env values padded on either side with ASCII and non-ASCII Unicode white space), in half of the cases through ONE shared schema object with a rotating first front end; non-trivial = at least one tag differs from the schema key or a field is missing; distinct = distinct (schema, record)"
 	root := rng.New(seed)
 	var lines []string
 	var impls []string
@@ -106,6 +106,8 @@ func streamFront(seed uint64, n int, driver string) (*Summary, error) {
 						tv += rng.Pick(r, []string{",omitempty", ",omitempty,string", ","}) // options after the name
 					} else if src != "zog" && r.P(1, 12) {
 						tv = ",omitempty" // no name: the tag does not name the key
+					} else if src == "zog" && r.P(1, 6) {
+						tv += rng.Pick(r, []string{",omitempty", ",x"}) // the zog tag is the key as it stands
 					}
 					f.Tags = append(f.Tags, [2]string{src, tv})
 					tagged = true
@@ -130,6 +132,22 @@ func streamFront(seed uint64, n int, driver string) (*Summary, error) {
 			case "strs":
 				f.S = &eng.Node{Kind: "slice", Elem: &eng.Node{Kind: "prim", PK: "str"}}
 				lv.kind = "strs"
+				if r.P(1, 2) {
+					// form / query parameters named k[] are always lists: with them a list of ONE element, and
+					// blank elements, can be expressed through every front end that has lists
+					var tags [][2]string
+					for _, t := range f.Tags {
+						if t[0] != "form" && t[0] != "query" {
+							tags = append(tags, t)
+						}
+					}
+					f.Tags = append(tags, [2]string{"form", fmt.Sprintf("f_%s%d[]", key, i%7)}, [2]string{"query", fmt.Sprintf("q_%s%d[]", key, i%7)})
+					tagged = true
+					for k := r.Range(1, 3); k > 0; k-- {
+						lv.list = append(lv.list, rng.Pick(r, []string{"t1", "t2", "x", "", " ", "\t"}))
+					}
+					break
+				}
 				for k := r.Range(2, 3); k > 0; k-- {
 					lv.list = append(lv.list, rng.Pick(r, []string{"t1", "t2", "x"}))
 				}
